@@ -50,6 +50,9 @@ CLAIMED = {
     "C20": ("Lean 4 theorems over an executable model of the five route/tree output formats, concat_linestrings, the traversal/uuid/summary plugins and apply_output_processing + correspondence run that parses back the WKT/WKB/GeoJSON/JSON the real code prints",
             "Proof: for every route, tree, geometry table and format the model's edge-id list, JSON records and GeoJSON features are the route's edges in order; the WKT/WKB/GeoJSON geometry is the concatenation of the stored linestrings in edge order (joint points kept); any missing row is an error (exact iff), at format level and as an error response through apply_output_processing wherever the plugin sits; tree outputs have one entry per branch and are permutation-invariant in the hash map's order; attached uuids are table[origin], table[destination] and the plugin never panics. The model is tied to the Rust code by a textual correspondence run through the real TraversalOutputFormat, traversal_ops, UUIDOutputPlugin::process and apply_output_processing with file-built plugins.",
             "§5 C20"),
+    "C16": ("Lean 4 theorems over an executable model of the two r-tree map matchers (selection = head of the nearest-first candidate list, first admissible edge, the tolerance comparisons and unit conversions exactly as coded, the JSON field writes) + bit-exact correspondence run against the real plugins built through their builders + independent exhaustive-scan / haversine oracle",
+            "Proof, thin on proof content and said so: squared coordinate distances, great-circle distances (haversine) and vehicle-restriction verdicts are input tables computed by the harness with the real functions, and rstar's nearest-first order is a hypothesis (Sorted) checked on every generated case; given that, 'nearest' is 'head of a sorted list'. Proved for all inputs: the vertex written is an arg-min of distance_2 over all vertices and equals an exhaustive scan; the vertex plugin succeeds iff the nearest vertex's distance converted into the tolerance unit is <= the tolerance (cut-off t/k(u) metres with the code's own table factor), origin and destination; an edge match is the first admissible candidate and no admissible candidate is nearer; every field other than the two written ones keeps value and relative order (non-object queries untouched), an edge-plugin error leaves the query untouched; the destination is optional. the edge match is made exactly when the nearest admissible candidate's great-circle distance, converted into the tolerance unit, is <= the tolerance (edge_tolerance; the former units defect edge-match/tolerance-units is kept as a regression example and corpus witness). The vertex tolerance clause is proved in full as well (the former boundary defect vertex-match/tolerance-boundary — distance == tolerance rejected — is kept as a regression example and corpus witness). The tie to the code is differential (every outcome line and updated query identical on generated cases), not a proof.",
+            "§5 C16"),
 }
 
 NOT_YET = {
